@@ -21,6 +21,7 @@ RULE = (
     '; pass 6: KL divergence with the event size exactly at max_cholesky_size and Lanczos rank 2; index tensors must not be mutated'
     '; pass 7: sums of two root-represented MVNs; successive draws; the point-mass distribution of the anchor file (Delta: shapes, log_prob, samples, expand leaves the source alone, KL against an MVN = -log density)'
     "; pass 8: reading variance / stddev / confidence_region of an MVN with a variance below the floor leaves the distribution and the caller's tensors alone; Delta KL against diagonal operators"
+    "; pass 10: KL with means that are views of one buffer; event-size-1 densities with a tiny variance; base samples come back unchanged and give the same draw again"
 )
 REQUIRED = ["log_prob", "kl", "kl_identical_zero", "rsample_LLt", "index_mean", "index_covariance", "variance", "mul_scalar", "add_mvn", "delta_distribution", "reading_leaves_distribution_alone"]
 ASSUMPTIONS = ["random SPD covariances with condition number < 1e3; event sizes <= 6; stochastic fast-path pieces (SLQ) are not reached at these sizes (Cholesky below max_cholesky_size)"]
